@@ -72,23 +72,27 @@ theorem doDelete_failed_kv (c : Cfg) (s : BState) (k : Bytes) (exp : Nat) (fs : 
 not below that key-value's revision (`maxUint64(resp.Header.Revision, modRevision)` in txn.go) -/
 theorem runCall_failed_kv (c : Cfg) (s : BState) (call : BCall) (hdr : Nat) (kv : KV)
     (h : (runCall c s call).1 = .resp false hdr (some kv)) : kv.2.2 ≤ hdr := by
+  -- a call without a value is refused with an error (no key-value in the answer)
+  by_cases he : call.emptyValue = true
+  · simp [runCall, he] at h
+  have he' : call.emptyValue = false := by simpa using he
   cases call with
   | create key val lease =>
-    simp only [runCall] at h
+    simp only [runCall, he', Bool.false_eq_true, if_false] at h
     generalize hd : doCreate c s key val [] = d at h
     obtain ⟨r, s'⟩ := d
     cases r <;> simp [ansOfWrite] at h
     obtain ⟨rfl, rfl⟩ := h
     exact doCreate_failed_kv c s key val [] _ _ (by rw [hd])
   | delete key rev =>
-    simp only [runCall] at h
+    simp only [runCall, he', Bool.false_eq_true, if_false] at h
     generalize hd : doDelete c s key rev [] = d at h
     obtain ⟨r, s'⟩ := d
     cases r <;> simp [ansOfWrite] at h
     obtain ⟨rfl, rfl⟩ := h
     exact doDelete_failed_kv c s key rev [] _ _ (by rw [hd])
   | update key val rev lease =>
-    simp only [runCall] at h
+    simp only [runCall, he', Bool.false_eq_true, if_false] at h
     generalize hd : doUpdate c s key val rev [] = d at h
     obtain ⟨r, s'⟩ := d
     cases r <;> simp [ansOfWrite] at h
